@@ -38,7 +38,7 @@ m = {
         "name": "lean4-model+correspondence",
         "path": "lean/ (Lean 4 model, theorems, compiled model driver) + harness/ (Python correspondence, oracles)",
         "serves_properties": [c['property_id'] for c in checks],
-        "kind_free_text": "machine-checked proof in Lean 4 about a hand-written executable model; the model is tied to /repo by a differential correspondence check run by every command, plus source-derived constants regenerated from the AST on every run"
+        "kind_free_text": "machine-checked proof in Lean 4 about an executable model; the model is tied to /repo on every run (a) by a differential correspondence check of model and implementation on the same inputs and recorded histories, (b) by source-derived constants and loop structure regenerated from the AST, and (c) for the pure index / list / kernel helpers by a Python-to-Lean translator (harness/py2lean.py -> Generated/Kernels.lean) with theorems that the translated functions equal the hand-written model"
     }],
     "checks": checks,
     "notes": TABLE.get('notes', ''),
